@@ -251,6 +251,78 @@ func routerUnsubStorm(rng *rand.Rand, w *Writer) {
 	w.Count("router.storm")
 }
 
+// several goroutines publish for one identifier at the same time while several subscribers of it keep reading: whatever
+// order the publications take effect in (the router serialises them), every subscriber sees THAT order - the same sequence
+// for all - every event once, each publisher's own events in the order it published them
+func routerPublishers(rng *rand.Rand, w *Writer) {
+	const npub, nev, nsub = 4, 60, 3
+	r := server.NewEventRouter[int, int](npub * nev)
+	subs := make([]<-chan int, nsub)
+	for i := range subs {
+		subs[i] = r.Subscribe(5)
+	}
+	bystander := r.Subscribe(6)
+	start := make(chan struct{})
+	var wg sync.WaitGroup
+	for p := 0; p < npub; p++ {
+		wg.Add(1)
+		go func(p int) {
+			defer wg.Done()
+			<-start
+			for i := 0; i < nev; i++ {
+				r.Publish(5, p*1000+i)
+			}
+		}(p)
+	}
+	close(start)
+	wg.Wait()
+	seqs := make([][]int, nsub)
+	for i, ch := range subs {
+	drain:
+		for {
+			select {
+			case v := <-ch:
+				seqs[i] = append(seqs[i], v)
+			default:
+				break drain
+			}
+		}
+	}
+	obs := "ok"
+	for i := range seqs {
+		if len(seqs[i]) != npub*nev {
+			obs = fmt.Sprintf("subscriber-%d-got-%d-of-%d", i, len(seqs[i]), npub*nev)
+			break
+		}
+		last := map[int]int{}
+		for _, v := range seqs[i] {
+			p, k := v/1000, v%1000
+			if prev, ok := last[p]; (ok && k != prev+1) || (!ok && k != 0) {
+				obs = fmt.Sprintf("publisher-%d-out-of-order-at-subscriber-%d", p, i)
+			}
+			last[p] = k
+		}
+		if i > 0 && obs == "ok" {
+			for j := range seqs[i] {
+				if seqs[i][j] != seqs[0][j] {
+					obs = fmt.Sprintf("subscribers-0-and-%d-disagree-on-the-order-at-%d", i, j)
+					break
+				}
+			}
+		}
+		if obs != "ok" {
+			break
+		}
+	}
+	select {
+	case v := <-bystander:
+		obs = fmt.Sprintf("foreign-delivery:%d", v)
+	default:
+	}
+	w.Case("routerconc", []string{"k=publishers"}, obs)
+	w.Count("router.publishers")
+}
+
 func suiteC20(rng *rand.Rand, tier string, w *Writer) {
 	n, m := 300, 25
 	if tier == "thorough" {
@@ -264,5 +336,8 @@ func suiteC20(rng *rand.Rand, tier string, w *Writer) {
 	}
 	for i := 0; i < m/2+4; i++ {
 		routerUnsubStorm(rng, w)
+	}
+	for i := 0; i < m/2+4; i++ {
+		routerPublishers(rng, w)
 	}
 }
